@@ -52,6 +52,21 @@ def genericChecks (cx : Ctx) (prev : RObs) (line : String) (r : RObs) : List Str
     else []
   g1 ++ g2 ++ g3 ++ g4 ++ g5 ++ g6
 
+/-- C20: `==` holds exactly when dimensions and cells are equal, and arrays that compare equal hash equally (nothing is demanded of
+    the hashes of unequal arrays) -/
+def specEq (cx : Ctx) (line : String) (r : RObs) : List String :=
+  match words line with
+  | ["@", "eq", c, rr, l] =>
+    match c.toNat?, rr.toNat?, parseList l with
+    | some c, some rr, some l =>
+      if r.status ≠ "ok" then [] else
+      let same := decide (c = cx.prev.c ∧ rr = cx.prev.r ∧ cx.vs l = cx.prev.data)
+      let f1 := if r.toks.head? = some (if same then "1" else "0") then [] else ["C20:eq-must-be-" ++ (if same then "true" else "false")]
+      let f2 := if r.toks.head? = some "1" ∧ r.toks.getD 1 "" ≠ "hasheq=1" then ["C20:equal-arrays-hash-differently"] else []
+      f1 ++ f2
+    | _, _, _ => []
+  | _ => []
+
 def oracle (cx : Ctx) (prev : RObs) (line : String) (robs : Option RObs) : String :=
   match robs with
   | none => "?"
@@ -62,7 +77,7 @@ def oracle (cx : Ctx) (prev : RObs) (line : String) (robs : Option RObs) : Strin
         match specStep cx line r <|> specRootStep cx line with
         | some e => checkSExp e r
         | none => (specSerde cx line r parseJson).getD []
-      match genericChecks cx prev line r ++ specific with
+      match genericChecks cx prev line r ++ specific ++ specEq cx line r with
       | [] => "ok"
       | fs => "FAIL " ++ ",".intercalate fs
 
